@@ -46,6 +46,7 @@ type wallet struct {
 	fdb   *faultDB
 	mgr   *keystore.KeystoreManagerForPoC
 	pub   string // abstract name of the public passphrase last used successfully
+	priv  []byte // private passphrase that last succeeded on this wallet (for near-miss arguments)
 }
 
 type drv struct {
@@ -86,7 +87,7 @@ func newDrv(sc vh.Scenario, dir string) *drv {
 	}
 	d.seeds["badseed"] = make([]byte, 16+r.Intn(15))
 	r.Read(d.seeds["badseed"])
-	lens := []int{6, 40, 7 + r.Intn(30), 7 + r.Intn(30), 7 + r.Intn(30)}
+	lens := []int{6, 40, 40, 7 + r.Intn(30), 7 + r.Intn(30)}
 	r.Shuffle(len(lens), func(i, j int) { lens[i], lens[j] = lens[j], lens[i] })
 	for i, p := range []string{"p1", "p2", "p3", "q1", "q2"} {
 		for {
@@ -218,6 +219,27 @@ func base58(b []byte) string {
 		out[i], out[j] = out[j], out[i]
 	}
 	return string(out)
+}
+
+// cand concretises a passphrase argument that is checked against the current one.  The abstract value "bad"
+// (never equal to the current passphrase) is made a near miss of the current passphrase half of the time.
+func (d *drv) cand(w *wallet, name string, r interface{ Intn(int) int }) []byte {
+	if name != "bad" || w == nil || len(w.priv) == 0 || r.Intn(4) == 0 {
+		return d.pass[name]
+	}
+	cur := w.priv
+	switch r.Intn(6) {
+	case 0, 4, 5:
+		return append(append([]byte{}, cur...), 'x')
+	case 1:
+		return append([]byte{}, cur[:len(cur)-1]...)
+	case 2:
+		b := append([]byte{}, cur...)
+		b[len(b)-1] ^= 1
+		return b
+	default:
+		return append(append([]byte{}, cur...), cur...)
+	}
 }
 
 func (d *drv) absPass(p []byte) string {
@@ -771,7 +793,7 @@ func run(sc vh.Scenario, dir string, rec *vh.Rec) {
 			}
 			m := w.mgr
 			if fault != "none" {
-				w.fdb.arm(fault, st.Int("k"))
+				w.fdb.arm(fault, st.Int("k"), st.Int("c"))
 				defer func() {
 					if w.fdb != nil {
 						fired, _ = w.fdb.disarm()
@@ -786,6 +808,7 @@ func run(sc vh.Scenario, dir string, rec *vh.Rec) {
 				setErr(err)
 				if err == nil {
 					out["id"] = d.learnID(id, st.Str("s"))
+					w.priv = d.pass[st.Str("p")]
 				}
 			case "NextAddr":
 				mas, err := m.NextAddresses(d.id(st.Str("s")), st.Int("b") == 1, uint32(st.Int("n")))
@@ -834,7 +857,11 @@ func run(sc vh.Scenario, dir string, rec *vh.Rec) {
 			case "Remark":
 				setErr(m.ChangeRemark(d.id(st.Str("s")), d.remarks[st.Str("r")]))
 			case "ChangePriv":
-				setErr(m.ChangePrivPassphrase(d.pass[st.Str("old")], d.pass[st.Str("new")], &fast))
+				err := m.ChangePrivPassphrase(d.cand(w, st.Str("old"), rng), d.pass[st.Str("new")], &fast)
+				setErr(err)
+				if err == nil && len(m.ListKeystoreNames()) > 0 {
+					w.priv = d.pass[st.Str("new")]
+				}
 			case "ChangePub":
 				err := m.ChangePubPassphrase(d.pass[st.Str("old")], d.pass[st.Str("new")], &fast)
 				setErr(err)
@@ -842,15 +869,17 @@ func run(sc vh.Scenario, dir string, rec *vh.Rec) {
 					w.pub = st.Str("new")
 				}
 			case "Delete":
-				okd, err := m.DeleteKeystore(d.id(st.Str("s")), d.pass[st.Str("p")])
+				okd, err := m.DeleteKeystore(d.id(st.Str("s")), d.cand(w, st.Str("p"), rng))
 				setErr(err)
 				if err == nil && !okd {
 					res = "err"
 				}
 			case "Export":
-				b, err := m.ExportKeystore(d.id(st.Str("s")), d.pass[st.Str("p")])
+				pp := d.cand(w, st.Str("p"), rng)
+				b, err := m.ExportKeystore(d.id(st.Str("s")), pp)
 				setErr(err)
 				if err == nil {
+					w.priv = pp
 					d.files[st.Str("f")] = b
 					d.fileSeed[st.Str("f")] = st.Str("s")
 				}
@@ -876,7 +905,12 @@ func run(sc vh.Scenario, dir string, rec *vh.Rec) {
 			case "Lock":
 				m.Lock()
 			case "Unlock":
-				setErr(m.Unlock(d.pass[st.Str("p")]))
+				pp := d.cand(w, st.Str("p"), rng)
+				err := m.Unlock(pp)
+				setErr(err)
+				if err == nil && len(m.ListKeystoreNames()) > 0 {
+					w.priv = pp
+				}
 			case "Sign":
 				pk := d.pubKey(st.Str("s"), st.Int("b"), st.Int("i"))
 				digest := sha256.Sum256([]byte(fmt.Sprintf("digest %d %d", sc.Seed, i)))
